@@ -905,7 +905,7 @@ class FnEmitter:
         if ptr[1][0] != 'local':
             return []
         self.nonnull.add(ptr[1][1])
-        return ['VRT_CHECK(%s != 0, "no null pointer dereference");' % self.val(*ptr)]
+        return ['VRT_CHECK_STOP(%s != 0, "no null pointer dereference");' % self.val(*ptr)]
 
     def val(self, t, v):
         if v[0] == 'local':
